@@ -828,9 +828,18 @@ def _r5(ctx, pkg):
         def _res(name, _pkg=pkg):
             _, g_ = _pkg.resolve("Component", name)
             return g_ if name.startswith("_") and not name.startswith("__") else None
-        for rf in Flow(f, CF, resolver=_res).facts:
+        pflow = Flow(f, CF, resolver=_res)
+        for rf in pflow.facts:
             if rf.kind == "return" and rf.value:
                 v = got(simp(rf.value))
+                if v[0] == "acc":
+                    # the mapping filled by an explicit loop (`out[sym.symbol] = sym.value` under `if sym.type == ..`, or after
+                    # `if sym.type != ..: continue`): the same pairs, conditions and source as the comprehension it spells out
+                    stores_ = [sf for sf in pflow.facts if sf.kind == "store" and sf.target == v[1] and sf.index is not None and sf.value is not None]
+                    atoms = [sg for sf in stores_ for gd in sf.guards for sg in split_guard(gd)]
+                    if stores_ and all(pol for _, pol in atoms) and not [bf for bf in pflow.facts if bf.kind == "break"]:
+                        v = ("tuple", tuple(("tuple", (got(simp(sf.index)), got(simp(sf.value)))) for sf in stores_) + tuple(got(simp(c_)) for c_, _ in atoms)
+                             + tuple(got(simp(lp_.iter)) for sf in stores_ for lp_ in sf.loops))
                 seen_.append(show(v)[:140])
                 # whatever the nesting / spelling (comprehension over .items() or .values(), a filtering helper, dict(),
                 # OrderedDict(), a folded loop, map/filter, attrgetter): pairs (x.symbol, x.value), one filter x.type == VariableType.<kind>,
